@@ -43,8 +43,14 @@ def main():
         # (a file on which the step-by-step run panics has no steps: nothing matched as far as it got; the oracle below decides)
         premise = all(not f["parse_err"] and not any(s["matched"] for s in (f.get("steps") or [])) for f in ff)
         if not premise:
-            ck.mismatch("generator premise broken: a 'never matching' patch matched or a pool file does not parse (%s)" % pname,
-                        rep, "generator premise of C06")
+            touched = clicorr.tree_changes(ob)
+            if touched and all(not f["parse_err"] for f in ff):
+                # the patch is built from identifiers that occur in no pool file: whatever the library says, nothing can match
+                ck.violation("a patch whose '-' code occurs in no file (%s) is reported as matching and files were touched on disk: %s; flags %s"
+                             % (pname, touched, fl), rep)
+            else:
+                ck.mismatch("generator premise broken: a 'never matching' patch matched or a pool file does not parse (%s)" % pname,
+                            rep, "generator premise of C06")
             continue
         # ---- direct oracle, from the property text
         changed = clicorr.tree_changes(ob)
